@@ -164,6 +164,14 @@ class Interp:
                         if int(var["discr"]) == v and not var["fields"]:
                             return agg("enum", ap, var["idx"], [])
             return TOP
+        if op.get("tag") == "array" and op.get("def"):
+            # a constant lookup table (the driver emits integer arrays element by element)
+            c = self.F.consts.get(strip_generics(op["def"])) or self.F.consts.get(op["def"])
+            if c and c.get("elems") is not None:
+                et = ty_info(op["ty"].strip("[]").split(";")[0].strip())
+                if et:
+                    return arr([const(int(x), et[0], et[1]) for x in c["elems"]])
+            return TOP
         if "promoted" in op:
             return ("promoted", op["promoted"])
         if op.get("zst"):
@@ -229,6 +237,10 @@ class Interp:
                     if ci is not None and off is not None and 0 <= ci + off < len(v[1]):
                         v = v[1][ci + off]
                     else:
+                        lin = self._affine_lookup(v[1], idx, off) if self.mode == "bv" else None
+                        if lin is not None:
+                            v = lin
+                            continue
                         # unknown index: join of candidates (elements share type)
                         e0 = v[1][0] if v[1] else TOP
                         v = top_int(e0[1], e0[2]) if is_int(e0) else TOP
@@ -237,6 +249,41 @@ class Interp:
                 else:
                     return TOP
         return v
+
+    def _affine_lookup(self, elems, idx, off):
+        """table[idx] for a constant table of 2^k integers and an index whose bits are affine forms over GF(2): when the
+        table is itself affine in the index bits (T[i] = T[0] ^ XOR_{j in i} (T[2^j] ^ T[0]) - true of every CRC table),
+        the looked-up value is again a vector of affine forms.  None when this does not apply."""
+        n = len(elems)
+        if off not in (0, None) or n < 2 or n & (n - 1) or not is_int(idx) or idx[3] is None:
+            return None
+        k = n.bit_length() - 1
+        vals = [int_const(e) if is_int(e) else None for e in elems]
+        if any(x is None for x in vals):
+            return None
+        ib = bits_of(idx)
+        if any(b == TOPBIT for b in ib[:k]) or any(b != 0 for b in ib[k:]):
+            return None
+        t0 = vals[0]
+        d = [vals[1 << j] ^ t0 for j in range(k)]
+        for i in range(n):
+            x = t0
+            for j in range(k):
+                if (i >> j) & 1:
+                    x ^= d[j]
+            if x != vals[i]:
+                self.notes.append("lookup table is not affine in its index (entry %d is %#x, the other entries imply %#x)" % (i, vals[i], x))
+                self.nonaffine_table = (i, vals[i], x)
+                return None
+        w = elems[0][1]
+        bits = []
+        for m in range(w):
+            b = (t0 >> m) & 1
+            for j in range(k):
+                if (d[j] >> m) & 1:
+                    b ^= ib[j]
+            bits.append(b)
+        return mk_int(w, False, tuple(bits))
 
     def read_loc(self, st, loc):
         cf, cl, path, win = loc
